@@ -205,7 +205,7 @@ Definition kcmd_keys (c : Data.MapK.kcmd) : list bytes :=
   match c with
   | Data.MapK.KCset k _ | Data.MapK.KCsetnx k _ | Data.MapK.KCgetset k _ | Data.MapK.KCincrby k _
   | Data.MapK.KCappend k _ | Data.MapK.KCsetrange k _ _
-  | Data.MapK.KCsetex k _ _ | Data.MapK.KCexpire k _ | Data.MapK.KCpersist k => [k]
+  | Data.MapK.KCsetex k _ _ | Data.MapK.KCexpire k _ | Data.MapK.KCpersist k | Data.MapK.KCsetopt k _ _ _ _ => [k]
   | Data.MapK.KCdel ks => ks
   | Data.MapK.KCinvalid => []
   end.
